@@ -115,6 +115,7 @@ GNextCS == (IF EmitCond THEN PrintT(<<"HIST", ToJson(hist)>>) ELSE TRUE)
 GNextCV == (IF EmitCond THEN PrintT(<<"HIST", ToJson(hist)>>) ELSE TRUE)
           /\ (GAdv \/ GSign \/ (\E who \in {Rich, HasAcct}, m \in Months : AddLicense(who, who, F2, OneAmt, m, Bond))
                             \/ (\E payer \in {Rich, Poor} : AddLicense(payer, payer, F2, OneAmt, ShortM, OtherDenom)))
+          /\ hist' = Append(hist, Step(last'))
 \* cover of the sale-contract configuration, from the configured start: two successive proposals (any list of the
 \* family: every subset of the chains with contract 1, and lists with a changed address), then a sale reported from
 \* every (chain, contract): current, retired and never configured ones.  The path is part of the view: the SAME final
@@ -126,7 +127,6 @@ GViewH == <<last, res, svars, hist>>
 GNextCC == (IF EmitCond THEN PrintT(<<"HIST", ToJson(hist)>>) ELSE TRUE)
           /\ (IF nops < 2 THEN \E cfg \in CfgFamily : cfg # sale /\ SetSale(cfg)
               ELSE nops = 2 /\ \E ch \in SaleChains, k \in Contracts : Sale(ch, k, F1, OneAmt))
-          /\ hist' = Append(hist, Step(last'))
           /\ hist' = Append(hist, Step(last'))
 GNextS == (IF nops = EmitAt THEN PrintT(<<"HIST", ToJson(hist)>>) ELSE TRUE)
           /\ GAct /\ hist' = Append(hist, Step(last'))
